@@ -57,7 +57,18 @@ class ExprGen:
 
     def cond(self, names: list[str]) -> str:
         rng = self.rng
+        if rng.random() < 0.2:
+            self.feats.add("not")
+            return f"not ({self._cond(names)})" if rng.random() < 0.5 else f"not {self._cond(names, simple=True)}"
+        return self._cond(names)
+
+    def _cond(self, names: list[str], simple: bool = False) -> str:
+        rng = self.rng
         a, b = self.expr(names, 1), self.expr(names, 1)
+        if simple or rng.random() < 0.3:
+            # plain names against plain names / dyadic constants: on lattice states both sides are exactly equal now and then
+            a, b = rng.choice(names), rng.choice([*names, "0.5", "1.0", "1.5", "2.0"])
+            return f"{a} {rng.choice(['<', '<=', '>', '>='])} {b}"
         r = rng.random()
         if r < 0.6:
             return f"{a} {rng.choice(['<', '<=', '>', '>='])} {b}"
@@ -273,8 +284,11 @@ def _roundtrip(spec: dict, tag: str, label: str, ctx: dict, feats: list[str], se
             viols.append(core.viol(f"re-read model has different initial / parameter values [{label}]", None, names=bad, original={k: float(a1[k]) for k in bad},
                                    reread={k: float(a2.get(k, float("nan"))) for k in bad}, **ctx))
         vars1 = model.get_variable_names()
-        for _ in range(4):
+        for i_state in range(6):
             st = {v: round(rng.uniform(0.3, 2.5), 3) for v in vars1}
+            if i_state >= 3:
+                # lattice states: plain comparisons sit exactly on their switching points here
+                st = {v: rng.choice([0.5, 1.0, 1.5, 2.0]) for v in vars1}
             st2 = {v: st.get(v, ic2[v]) for v in m2.get_variable_names()}
             try:
                 a1, r1 = model.get_args(st, 0.0), model.get_right_hand_side(st, 0.0)
